@@ -603,6 +603,13 @@ def units(tier, seed):
             lat = nm.startswith('rect') and rot == 0.0
             us.append(Unit('gen_%s_rot%.2f' % (nm, rot), make_gen_fn(poly, rot, lat), make_gen_replay(poly, rot, lat), setup, F,
                            'polygon %s (%d vertices), rotation %.3f rad concrete; target spacing: all reals in [5,25] m' % (nm, len(poly), rot), AS, max_seconds=1500))
+    # the ends of the documented rotation range (the default sweep starts at exactly -90 degrees): vertical rows
+    for nm in (['rect_origin', 'tri_axes', 'rect60x40'] if tier == 'quick' else list(POLYS)):
+        for rot in (-math.pi / 2, math.pi / 2):
+            poly = polys[nm]
+            us.append(Unit('gen_%s_rot%+.4f' % (nm, rot), make_gen_fn(poly, rot), make_gen_replay(poly, rot), setup, F,
+                           'polygon %s, rotation %+.6f rad (= %+d degrees exactly as the sweep computes it); target spacing: all reals in [5,25] m' % (nm, rot, round(math.degrees(rot))),
+                           AS, max_seconds=1500))
     # plain generator with no-go zones (one zone; two zones in both list orders: a row's crossings of *every* zone must be honoured)
     Z1 = [(30.0, 20.0), (45.0, 20.0), (45.0, 35.0), (30.0, 35.0)]
     Z2 = [(12.0, 14.0), (25.0, 14.0), (25.0, 30.0), (12.0, 30.0)]
